@@ -1,0 +1,368 @@
+//go:build verif
+
+package sniproxy
+
+// Export shim for the verification harness in /verif (build tag verif).
+// Nothing here is compiled into normal builds.
+
+import (
+	"bytes"
+	"fmt"
+	"runtime"
+	"time"
+)
+
+// VerifVal is a field value crossing the shim: K is 'n' (integer, 64-bit
+// pattern in N), 'b' (bytes in B) or 'e' (remote error: code in N, message
+// in B; code 0 is the nil error).
+type VerifVal struct {
+	K byte
+	N uint64
+	B []byte
+}
+
+func verifErrVal(e *remoteErr) VerifVal {
+	if e == nil {
+		return VerifVal{K: 'e'}
+	}
+	return VerifVal{K: 'e', N: uint64(e.code), B: []byte(e.message)}
+}
+
+func verifValErr(v VerifVal) *remoteErr {
+	if v.N == 0 && len(v.B) == 0 {
+		return nil
+	}
+	return &remoteErr{code: int(v.N), message: string(v.B)}
+}
+
+// VerifNewMessage returns a zero message of the named struct type; capBuf is
+// the size of the buffer pre-set in messages that decode into a caller buffer.
+func verifNewMessage(name string, capBuf int) message {
+	switch name {
+	case "helloRequest":
+		return new(helloRequest)
+	case "helloResponse":
+		return new(helloResponse)
+	case "dialRequest":
+		return new(dialRequest)
+	case "dialResponse":
+		return new(dialResponse)
+	case "dialSideRequest":
+		return new(dialSideRequest)
+	case "dialSide2Request":
+		return new(dialSide2Request)
+	case "readRequest":
+		return new(readRequest)
+	case "readResponse":
+		return &readResponse{bytes: make([]byte, capBuf)}
+	case "writeRequest":
+		return &writeRequest{bytes: make([]byte, capBuf)}
+	case "writeResponse":
+		return new(writeResponse)
+	case "statusRequest":
+		return new(statusRequest)
+	case "statusResponse":
+		return new(statusResponse)
+	case "closeRequest":
+		return new(closeRequest)
+	case "closeResponse":
+		return new(closeResponse)
+	}
+	return nil
+}
+
+func verifGet(m interface{}) []VerifVal {
+	n := func(v uint64) VerifVal { return VerifVal{K: 'n', N: v} }
+	b := func(v []byte) VerifVal { return VerifVal{K: 'b', B: v} }
+	switch m := m.(type) {
+	case *helloRequest:
+		return []VerifVal{b([]byte(m.msg))}
+	case *helloResponse:
+		return []VerifVal{b([]byte(m.msg))}
+	case *dialRequest:
+		return nil
+	case *dialResponse:
+		return []VerifVal{n(m.session), verifErrVal(m.err)}
+	case *dialSideRequest:
+		return []VerifVal{n(m.session), n(m.key), b([]byte(m.token))}
+	case *dialSide2Request:
+		return []VerifVal{n(m.session), n(m.key), b([]byte(m.token)), b([]byte(m.tcpAddr))}
+	case *readRequest:
+		return []VerifVal{n(m.session), n(uint64(m.maxRead))}
+	case *readResponse:
+		return []VerifVal{b(m.bytes), verifErrVal(m.err)}
+	case *writeRequest:
+		return []VerifVal{n(m.session), b(m.bytes)}
+	case *writeResponse:
+		return []VerifVal{n(uint64(m.written)), verifErrVal(m.err)}
+	case *statusRequest:
+		return []VerifVal{n(m.session)}
+	case *statusResponse:
+		return []VerifVal{n(m.uptime), n(m.totalRead), n(m.totalWritten)}
+	case *closeRequest:
+		return []VerifVal{n(m.session)}
+	case *closeResponse:
+		return []VerifVal{verifErrVal(m.err)}
+	}
+	return nil
+}
+
+func verifSet(m interface{}, vs []VerifVal) bool {
+	want := len(verifGet(m))
+	if len(vs) != want {
+		return false
+	}
+	switch m := m.(type) {
+	case *helloRequest:
+		m.msg = string(vs[0].B)
+	case *helloResponse:
+		m.msg = string(vs[0].B)
+	case *dialRequest:
+	case *dialResponse:
+		m.session, m.err = vs[0].N, verifValErr(vs[1])
+	case *dialSideRequest:
+		m.session, m.key, m.token = vs[0].N, vs[1].N, string(vs[2].B)
+	case *dialSide2Request:
+		m.session, m.key, m.token, m.tcpAddr = vs[0].N, vs[1].N, string(vs[2].B), string(vs[3].B)
+	case *readRequest:
+		m.session, m.maxRead = vs[0].N, int(vs[1].N)
+	case *readResponse:
+		m.bytes, m.err = vs[0].B, verifValErr(vs[1])
+	case *writeRequest:
+		m.session, m.bytes = vs[0].N, vs[1].B
+	case *writeResponse:
+		m.written, m.err = int(vs[0].N), verifValErr(vs[1])
+	case *statusRequest:
+		m.session = vs[0].N
+	case *statusResponse:
+		m.uptime, m.totalRead, m.totalWritten = vs[0].N, vs[1].N, vs[2].N
+	case *closeRequest:
+		m.session = vs[0].N
+	case *closeResponse:
+		m.err = verifValErr(vs[0])
+	default:
+		return false
+	}
+	return true
+}
+
+// VerifMessageNames lists the struct types the shim knows.
+func VerifMessageNames() []string {
+	return []string{
+		"helloRequest", "helloResponse", "dialRequest", "dialResponse",
+		"dialSideRequest", "dialSide2Request", "readRequest", "readResponse",
+		"writeRequest", "writeResponse", "statusRequest", "statusResponse",
+		"closeRequest", "closeResponse",
+	}
+}
+
+// VerifArity returns the number of fields of a message struct (-1 if unknown).
+func VerifArity(name string) int {
+	m := verifNewMessage(name, 0)
+	if m == nil {
+		return -1
+	}
+	return len(verifGet(m))
+}
+
+// VerifEncode encodes a message of the named type with the given field values.
+func VerifEncode(name string, vs []VerifVal) ([]byte, error) {
+	m := verifNewMessage(name, 0)
+	if m == nil || !verifSet(m, vs) {
+		return nil, fmt.Errorf("bad message %q", name)
+	}
+	buf := new(bytes.Buffer)
+	enc := newEncoder(buf)
+	m.encodeTo(enc)
+	return buf.Bytes(), enc.Err()
+}
+
+// VerifDecoded is the observation of one decode.
+type VerifDecoded struct {
+	Outcome  string // ok | truncated | tail | error | panic
+	Consumed int64
+	Tail     int64
+	Vals     []VerifVal
+	Detail   string
+	Alloc    uint64 // bytes allocated during the decode (TotalAlloc delta)
+}
+
+func verifAllocNow() uint64 {
+	var ms runtime.MemStats
+	runtime.ReadMemStats(&ms)
+	return ms.TotalAlloc
+}
+
+// VerifDecode runs decodeFrom then end() of the named type over body.
+func VerifDecode(name string, capBuf int, body []byte) (res VerifDecoded) {
+	m := verifNewMessage(name, capBuf)
+	if m == nil {
+		return VerifDecoded{Outcome: "error", Detail: "unknown type"}
+	}
+	defer func() {
+		if r := recover(); r != nil {
+			res = VerifDecoded{Outcome: "panic", Detail: fmt.Sprint(r)}
+		}
+	}()
+	r := bytes.NewReader(body)
+	before := verifAllocNow()
+	dec := newDecoder(r)
+	m.decodeFrom(dec)
+	dec.end()
+	res.Alloc = verifAllocNow() - before
+	res.Consumed = dec.count()
+	res.Tail = dec.tail
+	switch {
+	case dec.overread():
+		res.Outcome = "truncated"
+	case dec.tail != 0:
+		res.Outcome = "tail"
+	case dec.hasErr():
+		res.Outcome = "error"
+		res.Detail = dec.Err().Error()
+	default:
+		res.Outcome = "ok"
+		res.Vals = verifGet(m)
+	}
+	return res
+}
+
+// VerifServerFrame runs endpointServer.startCall over one frame.
+func VerifServerFrame(frame []byte) (outcome string, id uint64, typ uint8, vals []VerifVal, alloc uint64) {
+	defer func() {
+		if r := recover(); r != nil {
+			outcome = "panic: " + fmt.Sprint(r)
+		}
+	}()
+	s := &endpointServer{options: &Options{}}
+	before := verifAllocNow()
+	x, err := s.startCall(bytes.NewReader(frame))
+	alloc = verifAllocNow() - before
+	if err != nil {
+		return "decodeErr", 0, 0, nil, alloc
+	}
+	if _, ok := newRequestMessage(x.t); !ok {
+		return "unknownType", x.id, x.t, nil, alloc
+	}
+	if x.req != nil {
+		vals = verifGet(x.req)
+	}
+	return "request", x.id, x.t, vals, alloc
+}
+
+// VerifClientFrameResult is the observation of transport.handleMessage.
+type VerifClientFrameResult struct {
+	Panic        string
+	Err          string // error returned by handleMessage ("" = nil)
+	Fetched      bool   // the pending table was consulted
+	FetchedID    uint64
+	Found        bool // a pending call was handed out (and removed)
+	Completed    bool // that call's done() ran
+	CompletedErr string
+	Vals         []VerifVal
+	Hint         bool // shutdown was started
+}
+
+func verifRespFor(code uint8, capBuf int) decoderFrom {
+	switch code {
+	case msgHello:
+		return new(helloResponse)
+	case msgDial, msgDialSide, msgDialSide2:
+		return new(dialResponse)
+	case msgRead:
+		return &readResponse{bytes: make([]byte, capBuf)}
+	case msgWrite:
+		return new(writeResponse)
+	case msgClose:
+		return new(closeResponse)
+	}
+	return nil
+}
+
+// VerifClientFrame runs transport.handleMessage over one reply frame with the
+// given pending table (call id -> type code).
+func VerifClientFrame(pending map[uint64]uint8, capBuf int, frame []byte) (res VerifClientFrameResult) {
+	tr := newTransport(nil, nil)
+	stop := make(chan struct{})
+	defer close(stop)
+	var got *callExchange
+	fetchDone := make(chan struct{})
+	go func() {
+		select {
+		case f := <-tr.pendingFetch:
+			res.Fetched = true
+			res.FetchedID = f.id
+			if code, ok := pending[f.id]; ok {
+				ex := &callExchange{typ: code, id: f.id, resp: verifRespFor(code, capBuf)}
+				ex.done = func() {
+					res.Completed = true
+					if ex.err != nil {
+						res.CompletedErr = ex.err.Error()
+					}
+				}
+				got = ex
+				res.Found = true
+				close(fetchDone)
+				f.call <- ex
+			} else {
+				close(fetchDone)
+				f.call <- nil
+			}
+		case <-stop:
+		}
+	}()
+	func() {
+		defer func() {
+			if r := recover(); r != nil {
+				res.Panic = fmt.Sprint(r)
+			}
+		}()
+		if err := tr.handleMessage(bytes.NewReader(frame)); err != nil {
+			res.Err = err.Error()
+		}
+	}()
+	if res.Fetched {
+		<-fetchDone
+	}
+	if res.Completed && res.CompletedErr == "" && got != nil && got.resp != nil {
+		res.Vals = verifGet(got.resp)
+	}
+	if !res.Fetched && res.Err == "" && res.Panic == "" && len(frame) >= 10 && frame[8] == msgShutdownHint {
+		deadline := time.Now().Add(2 * time.Second)
+		for time.Now().Before(deadline) {
+			if tr.hasShutdown() {
+				res.Hint = true
+				break
+			}
+			time.Sleep(time.Millisecond)
+		}
+	}
+	return res
+}
+
+// VerifHandleRead serves one read request with the given maxRead bit pattern
+// against a session that has `avail` bytes ready; it reports how many bytes
+// were returned and how much memory the handler allocated.
+func VerifHandleRead(maxRead uint64, avail int) (outcome string, n int, alloc uint64) {
+	s := &endpointServer{options: &Options{}, conns: newConnections()}
+	conn := newConnection(1)
+	defer conn.cleanup()
+	if err := s.conns.add(conn); err != nil {
+		return "error: " + err.Error(), 0, 0
+	}
+	go func() {
+		conn.forServer().Write(make([]byte, avail))
+	}()
+	defer func() {
+		if r := recover(); r != nil {
+			outcome = "panic: " + fmt.Sprint(r)
+		}
+	}()
+	before := verifAllocNow()
+	resp := s.handleRead(&readRequest{session: 1, maxRead: int(maxRead)})
+	alloc = verifAllocNow() - before
+	if resp.err != nil {
+		return "rerr", len(resp.bytes), alloc
+	}
+	return "ok", len(resp.bytes), alloc
+}
